@@ -39,6 +39,12 @@ CLAIMS = {
  "C09": dict(level="proof", ref="DESIGN.md 5 C09",
    text="Coq theorems over the in-flight table and is_expected_response: a message is attributed to an outstanding request iff it carries its transaction id and comes from the address the request was sent to (port exact, IP exact unless the destination was 0.0.0.0); it is consumed at most once; a message that is not attributed leaves the table unchanged, so the genuine reply and the replies to all other requests are still accepted. Tied to the code by injecting responses and errors with right/guessed/unknown ids from the right address, a wrong port and a wrong IP around the genuine reply of a real lookup, and observing their effects (marker nodes contacted, address votes).",
    note="Trusted: Coq kernel; effects are the observation (the table itself is not dumped). Reading: a late reply to a not-yet-compacted entry is accepted by design (RTT learning); transaction-id wrap-around after 2^32 requests is outside the theorems' hypothesis of distinct ids."),
+ "C20": dict(level="proof", ref="DESIGN.md 5 C20",
+   text="Coq theorems over the cache of finished lookups and the statistics of both routing tables: for every history of completions and cache hits each of the ten counters/sums equals the aggregate over the currently cached lookups (vector invariant), counts never underflow, the cache holds at most 1000 lookups and one per target. Tied to the code by replaying real lookup histories (including one that rolls the 1000-entry cache and repeats cached targets at capacity) on the model and by re-computing the aggregate from the node's own cache dump; quiescence (no lookup, put, parked caller or unexpired in-flight request after a quiet period) is checked on mixed lossy workloads; store capacities are checked per request in the C03 histories.",
+   note="Trusted: Coq kernel; estimates enter the model as fixed-point observations of the node's f64 values, the f64 sums are compared within a rounding tolerance; quiescence is an observed verdict per workload, not a theorem (no node-level model)."),
+ "C06": dict(level="proof", ref="DESIGN.md 5 C06",
+   text="PARTIAL. Coq theorems for the two completion rules: a lookup is done once none of its requests is in flight, which holds at the latest one request timeout after its last request and immediately for answered requests; the store phase of a put yields its outcome once what is outstanding has expired; a put that could send nothing fails at once. Whole calls (exactly one outcome, nothing left behind) under loss, duplication, overlap and clock jumps are checked on workloads of a real node.",
+   note="No node-level transition model: the composition of the loop body is exercised, not proved. Real-time hangs inside flume/OS are outside the reach of the check; the timeout bound is the request timeout in force, which adapts to late replies."),
 }
 
 TECH = "Coq proof over hand-written Gallina model + differential correspondence (vm_compute) against the Rust implementation"
